@@ -121,6 +121,12 @@ func main() {
 		g = loops.NestedEndlessInner(*n, *first)
 	case "ThreeLevels":
 		g = loops.ThreeLevels(*n, *first)
+	case "FlatMap":
+		g = loops.FlatMap(*n, *first)
+	case "ManualPull":
+		g = loops.ManualPull(*n, *first)
+	case "RangeOtherInBody":
+		g = loops.RangeOtherInBody(*n, *first)
 	case "rawSharedInner":
 		g = rawSharedInner(*n, *first)
 	case "rawFor":
